@@ -7,6 +7,7 @@
      .bfg_environ (open, close)                       Environment.save, before the script runs
      per immediate file k: makedirs, open, close      during the script (pkg_config .pc files)
      .bfg_find_deps (open, close)                     post_rules_hook make_find_dirs, when find_files was used
+       or, since the repair F2 (write_depfile):       .bfg_find_deps.tmp (open, close), rename onto .bfg_find_deps
      .bfg_find_cache (open, close) or remove          the same hook: FindCacheFile.save
      build file (open = truncate, close)              after all hooks
      compile_commands.json (open, close)              when enabled
@@ -19,8 +20,21 @@
    regenerate rule (mtimes of the rule target against build.bfg and the directories listed in the included
    .bfg_find_deps) and then bfg9000 regenerate --lazy with find_check_cache's skip decision as written.
 
-   Two switches describe repairs (both false = the code as written):
-     cal  (cache_after_buildfile)  the find cache is saved after the build file has been written
+   A variant record selects the code that is modelled (v_old = bfg9000 before the two repairs of builtins/find.py,
+   v_repaired = after them):
+     adeps (F2, write_depfile)     .bfg_find_deps is written to .bfg_find_deps.tmp and renamed into place (atomic): a
+                                   crash between the close of the temporary file and the rename leaves a stray complete
+                                   .tmp and the OLD depfile intact
+     dnc   (F1, find_check_cache)  distrust_newer_cache: a lazy regeneration skips only when
+                                   mtime(.bfg_find_cache) <= mtime(build file); a cache strictly newer than the build file
+                                   was saved by a run that died before it completed the build file
+     cal   (cache_after_buildfile) hypothetical alternative repair: the find cache is saved after the build file
+   Time: every run (the old configure, the crashed run, each follow-up) happens at one epoch and the epochs of
+   successive runs are strictly increasing.  Within one run the cache and the build file therefore carry EQUAL
+   timestamps in the model (in reality cache <= build file, the cache being written first); F1 uses a strict
+   comparison, so an uninterrupted run leaves a cache that is trusted.  A cache saved by the crashed run (epoch 4) is
+   strictly newer than the build file of the old configure (epoch 2): this is where strictness of the clock across
+   runs matters (a crashed run within the timestamp granularity of the previous configure is outside the model).
    The model is executable; proofs are in CrashProofs.v. *)
 From Coq Require Import List Bool Arith.
 Import ListNotations.
@@ -29,14 +43,15 @@ Inductive gen := Old | New.
 Inductive content := Absent | Empty | Full (g : gen).
 Record fstate := mkF { cont : content; mt : nat }.
 
-Inductive file := FEnv | FImm (k : nat) | FDeps | FCache | FBuild | FStamp | FCompdb.
+Inductive file := FEnv | FImm (k : nat) | FDeps | FCache | FBuild | FStamp | FCompdb | FDepsTmp.
 Inductive dir := DBuild | DImm.
-Inductive fsop := Open (f : file) | WriteClose (f : file) | Remove (f : file) | Utime (f : file) | Mkdir (d : dir).
+Inductive fsop := Open (f : file) | WriteClose (f : file) | Remove (f : file) | Utime (f : file) | Mkdir (d : dir)
+               | Rename (a b : file).     (* os.replace a b: b gets a's content and mtime, a disappears *)
 (* an exception raised by the script or by a rule-emission hook cuts the run *)
 Inductive ev := Op (o : fsop) | Raise.
 
 Record fs := mkFs { f_env : fstate; f_deps : fstate; f_cache : fstate; f_build : fstate; f_stamp : fstate;
-                    f_compdb : fstate; f_imm : list fstate }.
+                    f_compdb : fstate; f_imm : list fstate; f_tmp : fstate }.
 
 Definition absent := mkF Absent 0.
 
@@ -50,18 +65,19 @@ Fixpoint upd (k : nat) (v : fstate) (l : list fstate) : list fstate :=
 Definition get (s : fs) (f : file) : fstate :=
   match f with
   | FEnv => f_env s | FDeps => f_deps s | FCache => f_cache s | FBuild => f_build s
-  | FStamp => f_stamp s | FCompdb => f_compdb s | FImm k => nth k (f_imm s) absent
+  | FStamp => f_stamp s | FCompdb => f_compdb s | FImm k => nth k (f_imm s) absent | FDepsTmp => f_tmp s
   end.
 
 Definition set (s : fs) (f : file) (v : fstate) : fs :=
   match f with
-  | FEnv => mkFs v (f_deps s) (f_cache s) (f_build s) (f_stamp s) (f_compdb s) (f_imm s)
-  | FDeps => mkFs (f_env s) v (f_cache s) (f_build s) (f_stamp s) (f_compdb s) (f_imm s)
-  | FCache => mkFs (f_env s) (f_deps s) v (f_build s) (f_stamp s) (f_compdb s) (f_imm s)
-  | FBuild => mkFs (f_env s) (f_deps s) (f_cache s) v (f_stamp s) (f_compdb s) (f_imm s)
-  | FStamp => mkFs (f_env s) (f_deps s) (f_cache s) (f_build s) v (f_compdb s) (f_imm s)
-  | FCompdb => mkFs (f_env s) (f_deps s) (f_cache s) (f_build s) (f_stamp s) v (f_imm s)
-  | FImm k => mkFs (f_env s) (f_deps s) (f_cache s) (f_build s) (f_stamp s) (f_compdb s) (upd k v (f_imm s))
+  | FEnv => mkFs v (f_deps s) (f_cache s) (f_build s) (f_stamp s) (f_compdb s) (f_imm s) (f_tmp s)
+  | FDeps => mkFs (f_env s) v (f_cache s) (f_build s) (f_stamp s) (f_compdb s) (f_imm s) (f_tmp s)
+  | FCache => mkFs (f_env s) (f_deps s) v (f_build s) (f_stamp s) (f_compdb s) (f_imm s) (f_tmp s)
+  | FBuild => mkFs (f_env s) (f_deps s) (f_cache s) v (f_stamp s) (f_compdb s) (f_imm s) (f_tmp s)
+  | FStamp => mkFs (f_env s) (f_deps s) (f_cache s) (f_build s) v (f_compdb s) (f_imm s) (f_tmp s)
+  | FCompdb => mkFs (f_env s) (f_deps s) (f_cache s) (f_build s) (f_stamp s) v (f_imm s) (f_tmp s)
+  | FImm k => mkFs (f_env s) (f_deps s) (f_cache s) (f_build s) (f_stamp s) (f_compdb s) (upd k v (f_imm s)) (f_tmp s)
+  | FDepsTmp => mkFs (f_env s) (f_deps s) (f_cache s) (f_build s) (f_stamp s) (f_compdb s) (f_imm s) v
   end.
 
 (* os.utime on an existing file; the code only touches files that exist *)
@@ -76,6 +92,7 @@ Definition apply_op (t : nat) (s : fs) (o : fsop) : fs :=
   | Remove f => set s f absent
   | Utime f => set s f (touch t (get s f))
   | Mkdir _ => s
+  | Rename a b => set (set s b (get s a)) a absent
   end.
 
 Definition apply_ops (t : nat) (l : list fsop) (s : fs) : fs := fold_left (apply_op t) l s.
@@ -86,27 +103,38 @@ Definition crash (t n : nat) (l : list fsop) (s : fs) : fs := apply_ops t (first
 (* ---- the abstract project ---- *)
 Record proj := mkP { uses_find : bool; n_imm : nat; has_compdb : bool }.
 
+(* ---- which code is modelled ---- *)
+Record variant := mkV { cal : bool; adeps : bool; dnc : bool }.
+Definition v_old := mkV false false false.        (* before the repairs F1 and F2 *)
+Definition v_repaired := mkV false true true.     (* builtins/find.py with F1 and F2 *)
+Definition v_cal := mkV true false false.         (* hypothetical: cache saved after the build file *)
+
 Definition env_ops := [Open FEnv; WriteClose FEnv].
 Fixpoint imm_from (k n : nat) : list fsop :=
   match n with
   | 0 => []
   | S n' => Mkdir DImm :: Open (FImm k) :: WriteClose (FImm k) :: imm_from (S k) n'
   end.
-Definition deps_ops (p : proj) := if uses_find p then [Open FDeps; WriteClose FDeps] else [].
+(* write_depfile: in place, or (F2) through .bfg_find_deps.tmp and os.replace.  The Rename always follows the
+   WriteClose of its source in these lists, so its source exists (os.replace of a missing file would raise) *)
+Definition deps_ops (v : variant) (p : proj) :=
+  if uses_find p then
+    if adeps v then [Open FDepsTmp; WriteClose FDepsTmp; Rename FDepsTmp FDeps] else [Open FDeps; WriteClose FDeps]
+  else [].
 Definition cache_ops (p : proj) := if uses_find p then [Open FCache; WriteClose FCache] else [Remove FCache].
 Definition build_ops := [Open FBuild; WriteClose FBuild].
 Definition compdb_ops (p : proj) := if has_compdb p then [Open FCompdb; WriteClose FCompdb] else [].
 
 (* everything that happens before the build file is opened, as written *)
-Definition pre_ops (p : proj) := env_ops ++ imm_from 0 (n_imm p) ++ deps_ops p ++ cache_ops p.
+Definition pre_ops (v : variant) (p : proj) := env_ops ++ imm_from 0 (n_imm p) ++ deps_ops v p ++ cache_ops p.
 
 (* cal = false: the code as written (cache saved by a post-rules hook, before the build file is written) *)
-Definition run_ops (cal : bool) (p : proj) : list fsop :=
-  if cal then env_ops ++ imm_from 0 (n_imm p) ++ deps_ops p ++ build_ops ++ cache_ops p ++ compdb_ops p
-  else pre_ops p ++ build_ops ++ compdb_ops p.
+Definition run_ops (v : variant) (p : proj) : list fsop :=
+  if cal v then env_ops ++ imm_from 0 (n_imm p) ++ deps_ops v p ++ build_ops ++ cache_ops p ++ compdb_ops p
+  else pre_ops v p ++ build_ops ++ compdb_ops p.
 
 (* bfg9000 configure-into additionally creates the build directory first *)
-Definition configure_ops (cal : bool) (p : proj) := Mkdir DBuild :: run_ops cal p.
+Definition configure_ops (v : variant) (p : proj) := Mkdir DBuild :: run_ops v p.
 
 (* a lazy regeneration that decides to skip: environment saved, outputs touched, AbortConfigure *)
 Fixpoint utimes_from (k n : nat) : list fsop :=
@@ -127,13 +155,14 @@ Fixpoint until_raise (l : list ev) : list fsop :=
   | Raise :: _ => []
   | Op o :: r => o :: until_raise r
   end.
-Definition run_events (p : proj) (j : nat) : list ev := insert_raise j (run_ops false p).
+Definition run_events (v : variant) (p : proj) (j : nat) : list ev :=
+  insert_raise j (run_ops (mkV false (adeps v) (dnc v)) p).
 
 (* ---- the state before the crashed run: configured and built from the old project at epoch 2 ---- *)
 Definition oldf := mkF (Full Old) 2.
 Definition fs_old (p : proj) : fs :=
   mkFs oldf (if uses_find p then oldf else absent) (if uses_find p then oldf else absent) oldf
-       (if 0 <? n_imm p then oldf else absent) (if has_compdb p then oldf else absent) (repeat oldf (n_imm p)).
+       (if 0 <? n_imm p then oldf else absent) (if has_compdb p then oldf else absent) (repeat oldf (n_imm p)) absent.
 
 (* ---- the edit (epoch 3) ---- *)
 Record edit := mkE { e_script : bool;   (* build.bfg edited: an explicit input is newer than the outputs *)
@@ -148,12 +177,16 @@ Inductive decision := DRun | DSkip | DFail.
 
 Definition min_out (s : fs) : nat := fold_right (fun x a => Nat.min (mt x) a) (mt (f_build s)) (f_imm s).
 
-Definition lazy_decision (e : edit) (s : fs) : decision :=
+(* F1: getmtime_ns(.bfg_find_cache) > getmtime_ns(regen_files.outputs[0]), strictly *)
+Definition cache_newer (s : fs) : bool := mt (f_build s) <? mt (f_cache s).
+
+Definition lazy_decision (v : variant) (e : edit) (s : fs) : decision :=
   match cont (f_cache s) with
   | Absent => DRun                                      (* FileNotFoundError: return, run the script *)
   | Empty => DFail                                      (* json.load fails: unable to reload environment, exit 1 *)
   | Full g =>
-      if min_out s <? input_mt e then DRun              (* max(inputs) > min(outputs) *)
+      if dnc v && cache_newer s then DRun               (* F1: the cache does not describe this build file *)
+      else if min_out s <? input_mt e then DRun         (* max(inputs) > min(outputs) *)
       else match g with
            | Old => if e_dir e then DRun else DSkip     (* cached results differ from the tree / are the same *)
            | New => DSkip                               (* the cache already describes the edited tree *)
@@ -165,17 +198,17 @@ Definition is_absent (x : fstate) := match cont x with Absent => true | _ => fal
 Definition is_new (x : fstate) := match cont x with Full New => true | _ => false end.
 
 (* bfg9000 regenerate [--lazy] at time t: (exit status 0?, resulting state) *)
-Definition regenerate (lazy cal : bool) (p : proj) (e : edit) (t : nat) (s : fs) : bool * fs :=
+Definition regenerate (lazy : bool) (v : variant) (p : proj) (e : edit) (t : nat) (s : fs) : bool * fs :=
   if is_full (f_env s) then
-    match (if lazy then lazy_decision e s else DRun) with
+    match (if lazy then lazy_decision v e s else DRun) with
     | DFail => (false, apply_ops t env_ops s)
     | DSkip => (true, apply_ops t (skip_ops p) s)
-    | DRun => (true, apply_ops t (run_ops cal p) s)
+    | DRun => (true, apply_ops t (run_ops v p) s)
     end
   else (false, s).                                       (* Environment.load fails *)
 
 (* make at time t: (exit status 0?, resulting state, was bfg9000 regenerate started?) *)
-Definition make_attempt (cal : bool) (p : proj) (e : edit) (t : nat) (s : fs) : bool * fs * bool :=
+Definition make_attempt (v : variant) (p : proj) (e : edit) (t : nat) (s : fs) : bool * fs * bool :=
   if is_full (f_build s) then
     if uses_find p && is_absent (f_deps s) then (false, s, false)     (* include of a missing file *)
     else
@@ -184,7 +217,7 @@ Definition make_attempt (cal : bool) (p : proj) (e : edit) (t : nat) (s : fs) : 
       let trig := is_absent tgt || (mt tgt <? input_mt e)
                   || (uses_find p && is_full (f_deps s) && (mt tgt <? dir_mt e)) in
       if trig then
-        let r := regenerate true cal p e t s in
+        let r := regenerate true v p e t s in
         if fst r then
           let s' := if multi then set (snd r) FStamp (mkF (Full New) t) else snd r in
           (is_full (f_build s'), s', true)
@@ -192,10 +225,10 @@ Definition make_attempt (cal : bool) (p : proj) (e : edit) (t : nat) (s : fs) : 
       else (true, s, false)
   else (false, s, false).                                 (* empty or missing Makefile: No targets *)
 
-Fixpoint attempts (cal : bool) (p : proj) (e : edit) (t k : nat) (s : fs) : list (bool * fs * bool) :=
+Fixpoint attempts (v : variant) (p : proj) (e : edit) (t k : nat) (s : fs) : list (bool * fs * bool) :=
   match k with
   | 0 => []
-  | S k' => let r := make_attempt cal p e t s in r :: attempts cal p e (S t) k' (snd (fst r))
+  | S k' => let r := make_attempt v p e t s in r :: attempts v p e (S t) k' (snd (fst r))
   end.
 
 (* the build file and every declared output of the regeneration step describe the edited project *)
@@ -204,18 +237,31 @@ Definition compdb_new (p : proj) (s : fs) : bool := negb (has_compdb p) || is_ne
 
 (* a follow-up is acceptable: it fails visibly or leaves files describing the edited project *)
 Definition ok_result (r : bool * fs * bool) : bool := negb (fst (fst r)) || describes_new (snd (fst r)).
+(* the same, counting compile_commands.json (not a declared output of the regeneration step) as well *)
+Definition ok_result_all (p : proj) (r : bool * fs * bool) : bool :=
+  negb (fst (fst r)) || (describes_new (snd (fst r)) && compdb_new p (snd (fst r))).
 
 (* the property for one crash point and k follow-ups *)
-Definition safe_at (cal : bool) (p : proj) (e : edit) (n k : nat) : bool :=
-  forallb ok_result (attempts cal p e 5 k (crash 4 n (run_ops cal p) (fs_old p))).
+Definition safe_at (v : variant) (p : proj) (e : edit) (n k : nat) : bool :=
+  forallb ok_result (attempts v p e 5 k (crash 4 n (run_ops v p) (fs_old p))).
+Definition safe_all_at (v : variant) (p : proj) (e : edit) (n k : nat) : bool :=
+  forallb (ok_result_all p) (attempts v p e 5 k (crash 4 n (run_ops v p) (fs_old p))).
 
 (* the two crash points after which a follow-up can succeed on stale files *)
-Definition deps_pt (p : proj) := 2 + 3 * n_imm p + 1.      (* .bfg_find_deps opened, not yet written *)
-Definition window_pt (p : proj) := 2 + 3 * n_imm p + 4.    (* .bfg_find_cache saved, build file not yet opened *)
+Definition deps_pt (p : proj) := 2 + 3 * n_imm p + 1.      (* .bfg_find_deps opened in place, not yet written *)
+(* .bfg_find_cache saved, build file not yet opened *)
+Definition window_pt (v : variant) (p : proj) := 2 + 3 * n_imm p + (if adeps v then 5 else 4).
+(* the build file is complete, compile_commands.json is not: crash points n with compdb_lo <= n < compdb_hi *)
+Definition compdb_lo (v : variant) (p : proj) := length (run_ops v p) - length (compdb_ops p) - (if cal v then length (cache_ops p) else 0).
+Definition compdb_hi (v : variant) (p : proj) := length (run_ops v p).
+Definition compdb_window (v : variant) (p : proj) (n : nat) : bool :=
+  has_compdb p && (compdb_lo v p <=? n) && (n <? compdb_hi v p).
 
 (* the edit is visible to the project: build.bfg changed, or a find_files result changed *)
 Definition valid (p : proj) (e : edit) : bool := e_script e || (uses_find p && e_dir e).
 
-(* crash points after which a follow-up succeeds on stale files (only when build.bfg itself was not edited) *)
-Definition bad_point (cal : bool) (p : proj) (e : edit) (n : nat) : bool :=
-  uses_find p && negb (e_script e) && ((n =? deps_pt p) || (negb cal && (n =? window_pt p))).
+(* crash points after which a follow-up succeeds on stale files (only when build.bfg itself was not edited):
+   the depfile truncated in place (closed by F2), the cache saved before the build file (closed by F1 or by cal) *)
+Definition bad_point (v : variant) (p : proj) (e : edit) (n : nat) : bool :=
+  uses_find p && negb (e_script e) &&
+  ((negb (adeps v) && (n =? deps_pt p)) || (negb (cal v) && negb (dnc v) && (n =? window_pt v p))).
